@@ -34,7 +34,10 @@ func VerifC15Renumber() {
 	check := vNondetBool("check")
 	vAssume(len(name) > 0 && name != "." && name != "..")
 	vWriteFile(root+"/REQUEST-920/keep.txt", "untouched\n")
-	vWildEntry(root, name, isDir, "---\n  - test_id: 5\n")
+	// content of the entry (job parameter): misnumbered; numbered correctly but without final newline; numbered correctly
+	// with trailing blank lines; already canonical
+	content := []string{"---\n  - test_id: 5\n", "---\n  - test_id: 1", "---\n  - test_id: 1\n\n \n", "---\n  - test_id: 1\n"}[vParam("content")]
+	vWildEntry(root, name, isDir, content)
 	vSnapshot(dir)
 	ctxt := context.NewWithConfiguration(dir, &configuration.Configuration{})
 	_ = NewTestRenumberer().RenumberTests(check, false, ctxt)
